@@ -277,6 +277,29 @@ func (w *c17World) events() []c17Event {
 		w.dbs[w.cur].rows = append(w.dbs[w.cur].rows, val)
 		return true
 	}})
+	ev = append(ev, c17Event{"UPDATE", func(w *c17World) bool {
+		w.seq++
+		err := w.exec(fmt.Sprintf("UPDATE t SET c = 'upd-%d'", w.seq))
+		if pe, ok := err.(*panicErr); ok {
+			w.fail("panic", "UPDATE with database %q selected: %v\n%s", w.cur, pe.val, trimStack(pe.stack))
+			return false
+		}
+		if w.cur == "" || !w.dbs[w.cur].hasTable {
+			if err == nil {
+				w.fail("bad-update-accepted", "UPDATE succeeded with database %q selected and no table t", w.cur)
+				return false
+			}
+			return true
+		}
+		if err != nil {
+			w.fail("statement-failed", "UPDATE in database %s: %v", w.cur, err)
+			return false
+		}
+		for i := range w.dbs[w.cur].rows {
+			w.dbs[w.cur].rows[i] = fmt.Sprintf("upd-%d", w.seq)
+		}
+		return true
+	}})
 	for i, s := range w.liveStores() {
 		st := s
 		ev = append(ev, c17Event{fmt.Sprintf("TICK store#%d (%s)", i, st.Path), func(w *c17World) bool {
@@ -297,14 +320,14 @@ func (w *c17World) events() []c17Event {
 }
 
 func runC17(env *lib.Env, rep *lib.Report) {
-	depth := 5
+	depth := 4
 	if env.Thorough() {
 		depth = 6
 	}
-	seeds := []string{"empty", "a-with-row+b"}
-	rep.Bounds["depth"] = fmt.Sprintf("%d from the seeded state, %d from the empty directory", depth, depth-1)
+	seeds := []string{"empty", "a-with-row+b", "a-with-12-rows+b"}
+	rep.Bounds["depth"] = fmt.Sprintf("quick: 4 from the one-row seed and from the empty directory, 3 from the flushed 12-row seed; thorough: 6 / 5 / 4 (this run: tier depth %d)", depth)
 	rep.Bounds["seeds"] = seeds
-	rep.Bounds["events"] = "CREATE DATABASE a|B, USE a|b|A|B|nosuch (names are case-insensitive), CREATE TABLE t, INSERT, TICK of every live store (including abandoned ones), RESTART; SHOW DATABASES and read-back are checked after every event"
+	rep.Bounds["events"] = "CREATE DATABASE a|B, USE a|b|A|B|nosuch (names are case-insensitive), CREATE TABLE t, INSERT, UPDATE (all rows), TICK of every live store (including abandoned ones), RESTART; SHOW DATABASES and read-back are checked after every event"
 	known := env.OpenKnown()
 	explore(env, rep, 0, func(c *lib.Ctx) {
 		if worldHome == "" {
@@ -328,10 +351,28 @@ func runC17(env *lib.Env, rep *lib.Report) {
 		}
 		w.sess = &Session{}
 		c.Logf("seed %s", seed)
-		if seed == "a-with-row+b" {
-			for _, name := range []string{"CREATE DATABASE a", "CREATE DATABASE B", "USE a", "CREATE TABLE t", "INSERT"} {
+		if seed != "empty" {
+			script := []string{"CREATE DATABASE a", "CREATE DATABASE B", "USE a", "CREATE TABLE t", "INSERT"}
+			if seed == "a-with-12-rows+b" {
+				// a table whose root is no longer a leaf
+				for i := 0; i < 11; i++ {
+					script = append(script, "INSERT")
+				}
+			}
+			for _, name := range script {
 				for _, e := range w.events() {
 					if e.name == name {
+						c.Logf("%s", e.name)
+						if !e.run(w) {
+							return
+						}
+					}
+				}
+			}
+			if seed == "a-with-12-rows+b" {
+				// flushed: every page of the table is clean, so later changes must dirty exactly the pages they touch
+				for _, e := range w.events() {
+					if strings.HasPrefix(e.name, "TICK store#0") {
 						c.Logf("%s", e.name)
 						if !e.run(w) {
 							return
@@ -360,8 +401,16 @@ func runC17(env *lib.Env, rep *lib.Report) {
 			}
 		}()
 		steps := depth
-		if seed == "empty" {
-			steps = depth - 1 // four events are needed before the first row exists; the seeded state covers the rest
+		switch seed {
+		case "empty":
+			if env.Thorough() {
+				steps = depth - 1
+			}
+		case "a-with-12-rows+b":
+			steps = depth - 1 // the larger, flushed state
+			if env.Thorough() {
+				steps = depth - 2
+			}
 		}
 		for step := 0; step < steps; step++ {
 			evs := w.events()
